@@ -1,2 +1,7 @@
 /* verif shim */
+#ifdef VERIF_BPF_TARGET
+#include <asm-generic/errno-base.h>
+#include <asm-generic/errno.h>
+#else
 #include <errno.h>
+#endif
